@@ -1,6 +1,7 @@
 import Just.Json
 import Just.Model.Quote
 import Just.Model.Path
+import Just.Model.Percent
 import Just.Model.Determinism
 import Just.Generated.Tables
 import Just.Model.Lexer
@@ -147,6 +148,13 @@ def handleEntries (j : Json) : Except String Json := do
             groups := ← fromJson? (← dj.getObjVal? "groups"), isPrivate := ← dj.getObjValAs? Bool "isPrivate" } : Listing.Decl))
   let as : List Listing.AliasOf ← fromJson? (← j.getObjVal? "aliases")
   return Json.mkObj [("entries", toJson (ds.map (fun d => Listing.entriesOf as d)))]
+
+/-- {"op":"percent","s":S} → encode_uri_component(S) -/
+def handlePercent (j : Json) : Except String Json := do
+  let t ← j.getObjValAs? String "s"
+  let out := Percent.encode (t.toUTF8.toList.map UInt8.toNat)
+  return Json.mkObj [("encoded", String.ofList (out.map Char.ofNat)),
+    ("roundtrip", toJson (Percent.decode out == some (t.toUTF8.toList.map UInt8.toNat)))]
 
 def handleWorkdir (j : Json) : Except String Json := do
   let c : Workdir.Ctx ← fromJson? (← j.getObjVal? "ctx")
@@ -552,6 +560,7 @@ def handle (line : String) : Json :=
       | "table" => handleTable j
       | "clean" => handleClean j
       | "entries" => handleEntries j
+      | "percent" => handlePercent j
       | "args" => handleArgs j
       | "childenv" => handleChildEnv j
       | "workdir" => handleWorkdir j
